@@ -312,6 +312,18 @@ class ProgramModel:
         fs = {f.name: f for f in tree.body if isinstance(f, ast.FunctionDef)} if tree is not None else {}
         return lambda name: fs.get(name)
 
+    def package_function_finder(self):
+        """name -> the module-level FunctionDef of that name anywhere in the package, when exactly one module defines it
+        (helpers imported from a sibling module)"""
+        if getattr(self, "_pkg_functions", None) is None:
+            fs = {}
+            for m, (r, t, _) in self.modules.items():
+                for f in t.body:
+                    if isinstance(f, ast.FunctionDef):
+                        fs.setdefault(f.name, []).append(f)
+            self._pkg_functions = {k: v[0] for k, v in fs.items() if len(v) == 1}
+        return lambda name: self._pkg_functions.get(name)
+
     def own_methods(self, cn):
         return [n for n in self.classes[cn].node.body if isinstance(n, ast.FunctionDef)]
 
